@@ -406,3 +406,22 @@ Qed.
 
 Lemma client_step_eof : forall cfg st, snd (client_step cfg st IEOF) = SError.
 Proof. intros. unfold client_step. rewrite read_record_eof. reflexivity. Qed.
+
+(* ---- end of stream, exactly ------------------------------------------------------------------------------------ *)
+Lemma run_app : forall {St} (step : St -> input -> St * sres) a b st,
+  run step st (a ++ b) = match run step st a with RWaiting st' => run step st' b | r => r end.
+Proof.
+  intros St step a. induction a as [|i a IH]; intros b st; [reflexivity|].
+  cbn [app run]. destruct (step st i) as [st' r]. destruct r; try reflexivity.
+  destruct (is_eof i); [reflexivity|apply IH].
+Qed.
+
+(* what was decided before the stream ended stays; an endpoint still reading when it ends fails *)
+Lemma run_eof_exact : forall {St} (step : St -> input -> St * sres),
+  (forall st, snd (step st IEOF) = SError) ->
+  forall pre post st,
+    run step st (pre ++ IEOF :: post) = match run step st pre with RWaiting _ => RError | r => r end.
+Proof.
+  intros St step Heof pre post st. rewrite run_app. destruct (run step st pre) as [st'| | | |]; try reflexivity.
+  cbn [run]. specialize (Heof st'). destruct (step st' IEOF) as [s r]. cbn in Heof. subst r. reflexivity.
+Qed.
